@@ -254,6 +254,13 @@ def run(P, R, tier):
             R.bad('C10.b', F, None, f'no retried writer opens {lit} for writing', construct=f'writer of {lit}')
             continue
         ns = [FC.node(_stmt(c)) for c in calls_to(F, [g])]
+        # ... or handed to an executor whose future is asked for its result (the statement that submits it stands for the call)
+        for c in astq.own_calls(F):
+            if isinstance(c.func, ast.Attribute) and c.func.attr in ('submit', 'map', 'apply') and any(isinstance(a_, ast.Name) and a_.id == g.name for a_ in c.args):
+                st_ = _stmt(c)
+                if st_ is not None and FC.node(st_) is not None:
+                    ns.append(FC.node(st_))
+        ns = [x for x in ns if x is not None]
         ok = bool(ns) and FC.every_path_passes(FC.ENTRY, FC.EXIT, ns)
         R.check(ok, 'C10.b', F, None, f'{lit} is written on every path to the return', f'a path returns without writing {lit}',
                 construct=f'write {lit} on every path')
